@@ -371,7 +371,13 @@ def check_bruteforce(case):
         w1, _ = wass.make_solver(grid, o)
         own = float(w1.l1_dissipation(ubest))
     if abs(own - fc(ubest)) > 1e-9 * max(abs(own), 1e-12):
-        raise HarnessError(f"fast cost {fc(ubest)!r} != library l1_dissipation {own!r}")
+        # the minimum is taken over the discrete transport cost as defined (RT0 interpolation of the face
+        # fluxes + the quadrature of the L1 mode), written out independently in FastCost; the library's
+        # functional has to be that cost, otherwise "the true minimum of the discrete transport cost"
+        # and the reported distances are not about the same quantity
+        raise Violation("cost-functional-differs", f"l1_dissipation of a mass-conserving flux = {own!r}, the discrete "
+                        f"transport cost of that flux (RT0 interpolation, {o['l1_mode']} quadrature) = {fc(ubest)!r}",
+                        tags)
     if upper - lower > 1e-3 * max(upper, 1e-12):
         return Outcome(False, _key(case), _labels(case, ("bf-uncertified",)), status="skipped")
     res = np.abs(ref.divergence() @ u - ref.vol * (b - a).ravel("F")).max()
@@ -413,6 +419,7 @@ def check_unique_flux(case):
     # linear-solver precision is relative to the largest entry that went through a linear solve
     lin = 1e-9 if o["linear_solver"] == "direct" else 1e-6
     if abs(d - want) > lin * (max(abs(want), 1e-12) + cap["linmax"] * ref.vol * ref.num_cells):
+        tags["anderson_at_noise_floor"] = wass.anderson_at_noise_floor(o, info)
         raise Violation("unique-flux-cost", f"distance {d!r}, cost of the unique mass-conserving flux {want!r} "
                         f"({o['method']}, {o['mobility_mode']}, {o['formulation']}/{o['linear_solver']}, "
                         f"max|u-u*| = {np.abs(ucap - u).max():.2e})", tags)
